@@ -19,8 +19,8 @@ package agessh
 //@   requires forall j in 0..len(stanzas) :: stanzas[j] != nil
 //@   loop 1 invariant -1 <= rangeindex && rangeindex < len(stanzas) && (forall j in 0..rangeindex+1 :: wraps(apply(unwrap, 1, stanzas[j]), age.ErrIncorrectIdentity))
 //@   loop 1 decreases len(stanzas) - rangeindex
-//@   ensures#nomatch (forall j in 0..len(stanzas) :: wraps(apply(unwrap, 1, stanzas[j]), age.ErrIncorrectIdentity)) ==> fk == nil && err == age.ErrIncorrectIdentity   [C01 C04]
-//@   ensures#first forall k in 0..len(stanzas) :: (!wraps(apply(unwrap, 1, stanzas[k]), age.ErrIncorrectIdentity) && (forall j in 0..k :: wraps(apply(unwrap, 1, stanzas[j]), age.ErrIncorrectIdentity))) ==> ((apply(unwrap, 1, stanzas[k]) != nil ==> fk == nil && err == apply(unwrap, 1, stanzas[k])) && (apply(unwrap, 1, stanzas[k]) == nil ==> same(fk, apply(unwrap, 0, stanzas[k])) && err == nil))   [C01 C04]
+//@   ensures#nomatch (forall j in 0..len(stanzas) :: wraps(apply(unwrap, 1, stanzas[j]), age.ErrIncorrectIdentity)) ==> fk == nil && err == age.ErrIncorrectIdentity   [C01 C04 C05 C19]
+//@   ensures#first forall k in 0..len(stanzas) :: (!wraps(apply(unwrap, 1, stanzas[k]), age.ErrIncorrectIdentity) && (forall j in 0..k :: wraps(apply(unwrap, 1, stanzas[j]), age.ErrIncorrectIdentity))) ==> ((apply(unwrap, 1, stanzas[k]) != nil ==> fk == nil && err == apply(unwrap, 1, stanzas[k])) && (apply(unwrap, 1, stanzas[k]) == nil ==> same(fk, apply(unwrap, 0, stanzas[k])) && err == nil))   [C01 C04 C05 C19]
 //@   ensures#nil err != nil ==> fk == nil                                                              [C01 C04]
 //@   modifies nothing
 
@@ -36,8 +36,8 @@ package agessh
 //@ func aeadDecrypt(key, ciphertext) (pt, err)
 //@   call chacha20poly1305.New#1 requires same(arg0, key)                                                         [C05]
 //@   call Open#1 requires arg1 == nil && bytes(arg2) == zeros(12) && len(arg2) == 12 && same(arg3, ciphertext) && arg4 == nil   [C05]
-//@   ensures#ok len(key) == 32 ==> (err == nil <==> openok(old(bytes(key)), zeros(12), old(bytes(ciphertext))))   [C01 C04]
-//@   ensures#val err == nil ==> bytes(pt) == open(old(bytes(key)), zeros(12), old(bytes(ciphertext)))               [C01 C04]
+//@   ensures#ok len(key) == 32 ==> (err == nil <==> openok(old(bytes(key)), zeros(12), old(bytes(ciphertext))))   [C01 C04 C05]
+//@   ensures#val err == nil ==> bytes(pt) == open(old(bytes(key)), zeros(12), old(bytes(ciphertext)))               [C01 C04 C05]
 //@   ensures#nil err != nil ==> pt == nil
 //@   fresh pt when err == nil && len(pt) > 0
 //@   modifies nothing
@@ -56,11 +56,11 @@ package agessh
 //@   call rsa.DecryptOAEP#1 requires arg1 == rand.Reader && arg2 == i.k && same(arg3, block.Body) && bytes(arg4) == OAEPLABEL   [C05]
 //@   ensures#malformed (block.Type == "ssh-rsa" && len(block.Args) != 1) ==> err != nil && !wraps(err, age.ErrIncorrectIdentity)   [C05 C14 C19]
 //@   ensures#foreign block.Type != "ssh-rsa" ==> err == age.ErrIncorrectIdentity                                  [C01 C04 C05]
-//@   ensures#tag (block.Type == "ssh-rsa" && len(block.Args) == 1 && block.Args[0] != fpof(i.sshKey)) ==> err == age.ErrIncorrectIdentity   [C01 C04]
+//@   ensures#tag (block.Type == "ssh-rsa" && len(block.Args) == 1 && block.Args[0] != fpof(i.sshKey)) ==> err == age.ErrIncorrectIdentity   [C01 C04 C05 C19]
 //@   ensures#nil err != nil ==> fk == nil                                                                         [C01 C04]
 //@   ensures#ok err == nil ==> block.Type == "ssh-rsa" && block.Args[0] == fpof(i.sshKey) && bytes(fk) == oaepdec(id(i.k), bytes(block.Body), OAEPLABEL)   [C01 C04 C05]
 //@   ensures#opens (block.Type == "ssh-rsa" && len(block.Args) == 1 && block.Args[0] == fpof(i.sshKey) && oaepok(id(i.k), bytes(block.Body), OAEPLABEL)) ==> err == nil   [C01 C05]
-//@   ensures#wrongkey (block.Type == "ssh-rsa" && len(block.Args) == 1 && block.Args[0] == fpof(i.sshKey) && !oaepok(id(i.k), bytes(block.Body), OAEPLABEL)) ==> err != nil   [C04]
+//@   ensures#wrongkey (block.Type == "ssh-rsa" && len(block.Args) == 1 && block.Args[0] == fpof(i.sshKey) && !oaepok(id(i.k), bytes(block.Body), OAEPLABEL)) ==> err != nil   [C01 C04]
 //@   ensures#frame i.k == old(i.k) && i.sshKey == old(i.sshKey)                                                   [C20]
 //@   modifies nothing
 
@@ -91,7 +91,7 @@ package agessh
 //@   call aeadDecrypt#1 requires same(arg1, block.Body)                                                           [C05]
 //@   ensures#malformed (block.Type == "ssh-ed25519" && len(block.Args) != 2) ==> err != nil && !wraps(err, age.ErrIncorrectIdentity)   [C05 C14 C19]
 //@   ensures#foreign block.Type != "ssh-ed25519" ==> err == age.ErrIncorrectIdentity                              [C01 C04 C05]
-//@   ensures#tag (block.Type == "ssh-ed25519" && len(block.Args) == 2 && b64rawok(block.Args[1]) && len(unb64raw(block.Args[1])) == 32 && block.Args[0] != fpof(i.sshKey)) ==> err == age.ErrIncorrectIdentity   [C01 C04]
+//@   ensures#tag (block.Type == "ssh-ed25519" && len(block.Args) == 2 && b64rawok(block.Args[1]) && len(unb64raw(block.Args[1])) == 32 && block.Args[0] != fpof(i.sshKey)) ==> err == age.ErrIncorrectIdentity   [C01 C04 C05 C19]
 //@   ensures#nil err != nil ==> fk == nil                                                                         [C01 C04]
 //@   ensures#opens (block.Type == "ssh-ed25519" && len(block.Args) == 2 && b64rawok(block.Args[1]) && len(unb64raw(block.Args[1])) == 32 && block.Args[0] == fpof(i.sshKey) && x25519ok(bytes(i.secretKey), unb64raw(block.Args[1])) && x25519ok(edTweak(i.sshKey), x25519(bytes(i.secretKey), unb64raw(block.Args[1]))) && openok(edKey(x25519(edTweak(i.sshKey), x25519(bytes(i.secretKey), unb64raw(block.Args[1]))), unb64raw(block.Args[1]), bytes(i.ourPublicKey)), zeros(12), bytes(block.Body))) ==> err == nil   [C01 C05]
 //@   ensures#frame i.secretKey == old(i.secretKey) && i.ourPublicKey == old(i.ourPublicKey) && i.sshKey == old(i.sshKey)   [C20]
@@ -108,25 +108,25 @@ package agessh
 //@ func (*EncryptedSSHIdentity).Unwrap(i, stanzas) (fileKey, err)
 //@   requires i.pubKey != nil && typeimpl(i.pubKey, "golang.org/x/crypto/ssh.CryptoPublicKey") && (forall j in 0..len(stanzas) :: stanzas[j] != nil)
 //@   loop 1 invariant -1 <= rangeindex && rangeindex < len(stanzas) && !match && $ppcalls == old($ppcalls) && i.decrypted == old(i.decrypted) && old(i.decrypted) == nil && i.pubKey == old(i.pubKey)
-//@   loop 1 invariant#nomatch forall j in 0..rangeindex+1 :: !(stanzas[j].Type == keytype(id(i.pubKey)) && len(stanzas[j].Args) >= 1 && stanzas[j].Args[0] == fpof(i.pubKey))   [C19]
+//@   loop 1 invariant#nomatch forall j in 0..rangeindex+1 :: !(stanzas[j].Type == keytype(id(i.pubKey)) && len(stanzas[j].Args) >= 1 && stanzas[j].Args[0] == fpof(i.pubKey))   [C04 C19]
 //@   loop 1 decreases len(stanzas) - rangeindex
-//@   ensures#noprompt (old(i.decrypted) == nil && old(forall j in 0..len(stanzas) :: !(stanzas[j].Type == keytype(id(i.pubKey)) && len(stanzas[j].Args) >= 1 && stanzas[j].Args[0] == fpof(i.pubKey)))) ==> $ppcalls == old($ppcalls) && fileKey == nil && err != nil   [C19]
+//@   ensures#noprompt (old(i.decrypted) == nil && old(forall j in 0..len(stanzas) :: !(stanzas[j].Type == keytype(id(i.pubKey)) && len(stanzas[j].Args) >= 1 && stanzas[j].Args[0] == fpof(i.pubKey)))) ==> $ppcalls == old($ppcalls) && fileKey == nil && err != nil   [C04 C19]
 //@   ensures#prompts (old(i.decrypted) == nil && old(exists j in 0..len(stanzas) :: (stanzas[j].Type == keytype(id(i.pubKey)) && len(stanzas[j].Args) >= 1 && stanzas[j].Args[0] == fpof(i.pubKey) && (forall k in 0..j :: !(stanzas[k].Type == keytype(id(i.pubKey)) && len(stanzas[k].Args) < 1))))) ==> $ppcalls == old($ppcalls) + 1   [C01 C05 C19]
 //@   ensures#once $ppcalls <= old($ppcalls) + 1                                                                   [C19]
-//@   ensures#cached old(i.decrypted) != nil ==> $ppcalls == old($ppcalls) && i.decrypted == old(i.decrypted)       [C19]
+//@   ensures#cached old(i.decrypted) != nil ==> $ppcalls == old($ppcalls) && i.decrypted == old(i.decrypted)       [C01 C19]
 //@   ensures#validated i.decrypted != old(i.decrypted) ==> old(i.decrypted) == nil && $pkeqn == old($pkeqn) + 1 && $pkeqr && $ppcalls == old($ppcalls) + 1   [C04 C19]
 //@   ensures#typednil i.decrypted != old(i.decrypted) ==> id(i.decrypted) != 0                                     [C19 C14]
 //@   ensures#onlycache i.pubKey == old(i.pubKey) && i.pemBytes == old(i.pemBytes) && i.recipient == old(i.recipient)   [C19 C20]
 
 //@ func NewRSARecipient(pk) (r, err)
 //@   requires pk != nil
-//@   ensures#ok err == nil ==> r != nil && r.sshKey == pk                                                           [C14 C18]
+//@   ensures#ok err == nil ==> r != nil && r.sshKey == pk                                                           [C01 C14 C18]
 //@   ensures#nil err != nil ==> r == nil                                                                           [C14 C18]
 //@   fresh r when err == nil
 
 //@ func NewEd25519Recipient(pk) (r, err)
 //@   requires pk != nil
-//@   ensures#ok err == nil ==> r != nil && r.sshKey == pk                                                          [C14 C18]
+//@   ensures#ok err == nil ==> r != nil && r.sshKey == pk                                                          [C01 C14 C18]
 //@   ensures#nil err != nil ==> r == nil                                                                           [C14 C18]
 //@   fresh r when err == nil
 
@@ -152,13 +152,13 @@ package agessh
 
 //@ func (*RSAIdentity).Recipient(i) (r)
 //@   requires#wf i.k != nil                                                                                       [C14]
-//@   ensures#key r != nil && r.sshKey == i.sshKey                                                                  [C01]
+//@   ensures#key r != nil && r.sshKey == i.sshKey                                                                  [C01 C05]
 //@   ensures#frame i.k == old(i.k) && i.sshKey == old(i.sshKey)                                                    [C20]
 //@   fresh r
 //@   modifies nothing
 
 //@ func (*Ed25519Identity).Recipient(i) (r)
-//@   ensures#key r != nil && r.sshKey == i.sshKey && same(r.theirPublicKey, i.ourPublicKey)                        [C01]
+//@   ensures#key r != nil && r.sshKey == i.sshKey && same(r.theirPublicKey, i.ourPublicKey)                        [C01 C05]
 //@   ensures#frame i.secretKey == old(i.secretKey) && i.ourPublicKey == old(i.ourPublicKey) && i.sshKey == old(i.sshKey)   [C20]
 //@   fresh r
 //@   modifies nothing
